@@ -3,9 +3,9 @@
 SPEC = dict(
     harness=['h_pid.c'],
     # the default (double) build runs the full harness; the other two real widths run the compact type-generic companion h_pid_w.c
-    configs=lambda tier: [dict(name='f64'), dict(name='f64-clang', libcc='clang', nworkers=4, of=8), dict(name='f32', real=4, harness=['h_pid_w.c']), dict(name='f80', real=16, harness=['h_pid_w.c']),
+    configs=lambda tier: [dict(name='f64'), dict(name='f64-clang', libcc='clang', nworkers=4, of=8), dict(name='f64-o2', libflavour='san-o2', libdrop=['-fno-strict-aliasing'], nworkers=4, of=8), dict(name='f32', real=4, harness=['h_pid_w.c']), dict(name='f80', real=16, harness=['h_pid_w.c']),
                           dict(name='cxx', harness=['h_cxxw.c', 'h_cxxw_shim.cc'], hflags=['-DVF_CXXW=12'], nworkers=4)],
-    parallel_configs=5,
+    parallel_configs=6,
     level='exploration',
     rule='every case is one history of 1..2000 (set-point, feedback) pairs fed to the real controller code with random switches between '
          'the run/pos/inc entry points, a_*_zero calls in mid-history (after which a freshly initialised twin controller is run alongside '
